@@ -92,10 +92,6 @@ ERV2_EXCEPTIONS = {
      'Result::unwrap<QueryTask, QueryError>'):
         'QueryTask::new on the built-in query `SELECT column_name FROM _meta_columns_<t>`: no '
         'aggregates, no star, normalisation cannot fail',
-    ('engine::execution::query_task::QueryTask::convert_to_output_format',
-     'Result::unwrap<(), QueryError>'):
-        'BatchResult::validate re-checks an engine invariant (equal column lengths) on the '
-        'engine\'s own output; not input dependent',
     ('scheduler::inner_locustdb::InnerLocustDB::query_column_names',
      'Result::unwrap<Result<QueryOutput, QueryError>, Canceled>'):
         'internal catalogue query: Canceled only if a worker thread died earlier (the condition '
@@ -296,3 +292,51 @@ def ord14_multi_query_positional(ctx):
                                                          ', re-sorted' if hits else ''),
                    where(runs[0][1]))
     ctx.require(n >= 1, 'ORD-14: no handler runs several queries per request')
+
+
+# ------------------------------------------------------------------------------------ PAN-4
+def pan4_constant_result_columns(ctx):
+    ctx.rule('PAN-4', 'a constant in the select list reaches the result assembly as a scalar column: the '
+                      'scalar column types for integers, floats and strings can be sliced (the column '
+                      'view of the result is built with slice_box), and the length check of the '
+                      'assembled result is an error value, not an unwrap', floor=3)
+    ast = ctx.ast
+    from mirlib import astlib
+    f = 'engine/data_types/scalar_data.rs'
+    want = {'i64': None, 'of64': None, 'str': None}
+    for (p, q, n) in ast.fns:
+        if not p.endswith(f) or not q.endswith('::slice_box') or not n.get('body'):
+            continue
+        impl = q.rsplit('::', 1)[0].replace(' ', '')
+        m = re.search(r"ScalarVal<(&'?\w*str|i64|of64|String|T)>", impl)
+        if not m:
+            continue
+        key = 'str' if 'str' in m.group(1) else m.group(1)
+        if key in want:
+            want[key] = n
+    for key, n in sorted(want.items()):
+        ok = n is not None and not astlib.node_panics(n['body']) if hasattr(astlib, 'node_panics') else n is not None
+        if n is not None:
+            body = n['body']
+            while isinstance(body, dict) and body.get('k') == 'block' and len(body.get('stmts', [])) == 1:
+                body = body['stmts'][0]
+            ok = not (isinstance(body, dict) and body.get('k') == 'macro' and body.get('path') in
+                      ('panic', 'todo', 'unimplemented', 'unreachable'))
+        ctx.check('PAN-4', 'ScalarVal<%s>|slice_box' % key, ok,
+                  'ScalarVal<%s> %s' % (key, 'can be sliced into a column' if ok else
+                                        ('has no slice_box of its own and inherits the panicking default'
+                                         if n is None else 'panics in slice_box') +
+                                        ': `SELECT <constant> FROM t` kills the worker thread'),
+                  'src/%s%s' % (f, ':%d' % n['l'] if n is not None else ''))
+    # the length check in convert_to_output_format
+    P = ctx.P
+    F = P.one('QueryTask::convert_to_output_format')
+    from .common import classify_result_use
+    vals = calls_matching(F, lambda x: x.endswith('BatchResult::validate'))
+    ctx.require(vals, 'PAN-4: convert_to_output_format does not validate the assembled result')
+    du = DefUse(F)
+    for (b, t) in vals:
+        use = classify_result_use(F, du, t)
+        ctx.check('PAN-4', 'convert_to_output_format|length-check-is-an-error-value', use['kind'] in ('try', 'returned', 'match'),
+                  'BatchResult::validate() result is %s (a constant next to a column in the select list '
+                  'gives columns of different lengths)' % use['kind'], where(t))
